@@ -238,3 +238,51 @@ def assignments(body, var):
     body = strip_c_comments(body)
     return [re.sub(r"\s+", " ", m.group(1)).strip()
             for m in re.finditer(r"(?<![\w>.])%s\s*=(?!=)\s*([^;]+);" % re.escape(var), body)]
+
+
+class NatEmitter:
+    """Translate small C `int` expressions / conditions to Lean terms over `Nat` (variables declared `nat`)
+    and `Int` (variables declared `int`), for code where the values are array indexes and comparison results
+    and C's wrap-around is not at stake (the caller states the bound under which that is so).
+    env: C name -> (lean name, "nat" | "int")."""
+
+    def __init__(self, env):
+        self.env = env
+
+    def term(self, e):
+        k = e[0]
+        if k == "num":
+            return "%d" % int(re.sub(r"[uUlL]+$", "", e[1]), 0), None
+        if k == "id":
+            if e[1] not in self.env:
+                raise CExprError("unknown variable %s" % e[1])
+            return self.env[e[1]]
+        if k == "bin" and e[1] in ("+", "-", "*", "/"):
+            a, ta = self.term(e[2])
+            b, tb = self.term(e[3])
+            ty = ta or tb or "nat"
+            if ta and tb and ta != tb:
+                raise CExprError("mixed nat/int arithmetic in %r" % (e,))
+            if e[1] == "-" and ty == "nat":
+                raise CExprError("subtraction on index-typed values is not supported (could go negative)")
+            return "(%s %s %s)" % (a, e[1], b), ty
+        raise CExprError("unsupported term %r" % (e,))
+
+    def cond(self, e):
+        k = e[0]
+        if k == "bin" and e[1] in ("&&", "||"):
+            return "(%s %s %s)" % (self.cond(e[2]), e[1], self.cond(e[3]))
+        if k == "un" and e[1] == "!":
+            return "(!%s)" % self.cond(e[2])
+        if k == "bin" and e[1] in ("<", ">", "<=", ">=", "==", "!="):
+            a, ta = self.term(e[2])
+            b, tb = self.term(e[3])
+            ty = ta or tb or "nat"
+            if ta and tb and ta != tb:
+                raise CExprError("comparison between nat and int in %r" % (e,))
+            tyname = "Nat" if ty == "nat" else "Int"
+            op = {"<": "<", ">": ">", "<=": "≤", ">=": "≥", "==": "==", "!=": "!="}[e[1]]
+            if e[1] in ("==", "!="):
+                return "((%s : %s) %s (%s : %s))" % (a, tyname, op, b, tyname)
+            return "(decide ((%s : %s) %s (%s : %s)))" % (a, tyname, op, b, tyname)
+        raise CExprError("unsupported condition %r" % (e,))
